@@ -1,2 +1,2 @@
 fn main() {}
-// e33333f4
+// c46ba2d2
